@@ -213,12 +213,13 @@ def tree_sources(ctx, rng, n):
 # ---------------------------------------------------------------------------------------------------
 def gen_tick(rng):
     tb = rng.choice(TBS + [None])
-    n, d = rng.choice([2, 3, 4, 5, 6, 7, 9, 12, 16, 64]), rng.choice([2, 4, 8, 16])
+    # (numerators outside 2..64 are clamped: the signature in force is the one the file declares)
+    n, d = rng.choice([2, 3, 4, 5, 6, 7, 9, 12, 16, 64, 1, 0, 65, 100]), rng.choice([2, 4, 8, 16])
     sig = rng.random() < 0.8
     k = rng.choice([0, 0, 1, 1, 2, 3, 5, -1, -2]) if rng.random() < 0.7 else None
     m, b = rng.choice([1, 1, 2, 3, 4, 8, 17, 40]), rng.choice([1, 1, 2, 3, 4, (n if sig else 4), (n if sig else 4) + 2])
     tbv = tb or 96
-    nn, dd = (n, d) if sig else (4, 4)
+    nn, dd = (min(max(n, 2), 64), d) if sig else (4, 4)
     beat = 4 * tbv // dd
     t = rng.choice([0, 0, 1, beat - 1, beat, 2 * beat, 7, 95])
     src = ""
